@@ -1,5 +1,5 @@
 INIT TInit
 NEXT TNext
-INVARIANTS NoDoubleOwner HandleNeverUndercounts AtMostOneConfirmed ConfirmedMatchesBlock BlockAffHasAff
+INVARIANTS NoDoubleOwner HandleNeverUndercounts AtMostOneConfirmed ConfirmedMatchesBlock
 POSTCONDITION TraceAccepted
 CHECK_DEADLOCK FALSE
